@@ -12,7 +12,7 @@ def run_store(run, want, rule, n_gen_quick=60, n_gen_thorough=1200, cap_quick=40
     cap = cap_quick if tier == "quick" else cap_thorough
     lat = lattice.prec_lattice(tier)
     if tier == "quick":
-        lat = [p for k, p in enumerate(lat) if k % 3 == 0]
+        lat = [p for k, p in enumerate(lat) if k % 3 == 0 or p["family"] == "F-regress"]
     items = lat + ktree.generate(run.seed + 1000, n_gen)
     cases, total = [], 0
     for k, it in enumerate(items):
